@@ -71,6 +71,29 @@ def limits_compile(cx, quick):
         for i in range(d, 0, -1):
             body = "for any v%d in (0..1) : (%s)" % (i, body)
         cx.compile_case("loop-nesting", "depth=%d" % d, "rule r { condition: %s }" % body, None if d <= 4 else E["LOOP_NEST"])
+    # ---- an error inside nested loops (the nesting limit itself, or any other error at depth 1..4) followed by MORE rules that use loops, in the same source: exactly
+    # that one error, no crash (the compiler unwinds its loop bookkeeping on the error path; the parser goes on with the next rule)
+    kinds = [lambda v, b: "for any %s in (0..1) : (%s)" % (v, b), lambda v, b: "for all %s in (1, 2) : (%s)" % (v, b), lambda v, b: 'for any %s in ("a", "b") : (%s)' % (v, b),
+             lambda v, b: "for any of them : (%s)" % b if "of them" not in b else "for any %s in (0..1) : (%s)" % (v, b)]
+    tails = ['rule t1 { condition: for any a in (0..1) : (for any b in (0..1) : (a == b)) }', 'rule t2 { strings: $s = "x" condition: for any of them : ($) and for all i in (1..2) : (@s[i] >= 0) }',
+             'rule t3 { condition: for any a in (0..1) : (for any b in (0..1) : (for any c in (0..1) : (for any d in (0..1) : (a + b + c + d > 5)))) }']
+    for d in range(1, 8):
+        for rot in range(len(kinds)):
+            for inner, code in (("true", None if d <= 4 else E["LOOP_NEST"]), ("undefined_identifier_xyz == 1", None), ("v1 + true", None)):
+                body = inner
+                for i in range(d, 0, -1):
+                    body = kinds[(i + rot) % len(kinds)]("v%d" % i, body)
+                decl = 'strings: $q = "q" ' if "of them" in body else ""
+                for ntail in (0, 1, 3):
+                    text = "rule r { %scondition: %s } " % (decl, body) + " ".join(tails[:ntail])
+                    if inner == "true":
+                        add = cx.compile_case("loop-nesting", "depth=%d kinds=%d then %d more rules" % (d, rot, ntail), text, code)
+                    elif d <= 4:
+                        add = cx.compile_case("loop-nesting", "error at depth=%d (%s) kinds=%d then %d more rules" % (d, inner, rot, ntail), text, -1)
+                    else:
+                        continue
+                    if add and add["errors"] > 1:
+                        cx.ck.violation("C15:loop-nesting:more-than-one-error", dict(case=text, errors=add["errors"], messages=add["msgs"][:3]))
     # ---- strings per rule (configurable)
     for L in (1, 2, 10, 10000):
         for s in sorted(set(x for x in (L - 1, L, L + 1, 2 * L, 10 * L) if 1 <= x <= 25000)):
